@@ -115,6 +115,19 @@ Proof.
   destruct pl as [[rx ry rz] [a b c]], p as [x y z]. unfold unit_normal. cbn [pnormal]. intros H. vunf_in H.
   punf. nsatz.
 Qed.
+(* hypothesis-free versions: the constructor accepts normals that are unit only to 1e-6; the laws hold up to the defect *)
+Lemma project_sd_defect pl p :
+  plane_sd ROps pl (plane_project ROps pl p) = plane_sd ROps pl p * (1 - vnorm2 ROps (pnormal pl)).
+Proof. destruct pl as [[rx ry rz] [a b c]], p as [x y z]. punf. ring. Qed.
+Lemma mirror_sd_defect pl p :
+  plane_sd ROps pl (plane_mirror ROps pl p) = plane_sd ROps pl p * (1 - 2 * vnorm2 ROps (pnormal pl)).
+Proof. destruct pl as [[rx ry rz] [a b c]], p as [x y z]. punf. ring. Qed.
+Lemma project_twice_defect pl p :
+  plane_project ROps pl (plane_project ROps pl p) =
+  vsub ROps (plane_project ROps pl p)
+       (vscale ROps (plane_sd ROps pl p * (1 - vnorm2 ROps (pnormal pl))) (pnormal pl)).
+Proof. rewrite (project_moves_along_normal pl (plane_project ROps pl p)), project_sd_defect. reflexivity. Qed.
+
 Lemma project_idempotent pl p : unit_normal pl ->
   plane_project ROps pl (plane_project ROps pl p) = plane_project ROps pl p.
 Proof.
@@ -166,3 +179,10 @@ Lemma pairs_is_map_single ps es k p e : nth_error ps k = Some p -> nth_error es 
 Proof.
   intros Hp He. unfold sd_pairs, project_pairs, mirror_pairs. rewrite !nth_error_map2, Hp, He. auto.
 Qed.
+
+Lemma zip_length {A B} (l : list A) (l' : list B) : length l = length l' -> length (zip l l') = length l.
+Proof. revert l'. induction l as [|a r IH]; intros [|b r'] H; cbn in *; try reflexivity; try discriminate. f_equal. apply IH. congruence. Qed.
+Lemma pairs_length ps es : length ps = length es ->
+  length (sd_pairs ROps ps es) = length ps /\ length (project_pairs ROps ps es) = length ps /\
+  length (mirror_pairs ROps ps es) = length ps.
+Proof. intros H. unfold sd_pairs, project_pairs, mirror_pairs, map2. rewrite !map_length, zip_length by exact H. auto. Qed.
